@@ -10,7 +10,7 @@ from harness import model, proto_impl as PI, vloop
 from harness.common import Prop
 
 
-async def _run(events, consumers):
+async def _run(events, consumers, sub_hops=0):
     from pyplumio.protocol import AsyncProtocol
     loop = asyncio.get_running_loop()
     jobs = []
@@ -51,6 +51,13 @@ async def _run(events, consumers):
 
         getters = {}
         got = []
+        if sub_hops:
+            # a user subscribed to the device entry on the protocol; the callback awaits (every time it is called)
+            async def on_entry(dev):
+                got.append([200 + len([g for g in got if g[0] >= 200]), dev])
+                for _ in range(sub_hops):
+                    await asyncio.sleep(0)
+            proto.subscribe("ecomax", on_entry)
         for ev in events:
             if ev[0] == 0:
                 reader.feed_data(G.enc(kind, 0x56, 0x45, ev[1], 5, payload))
@@ -67,6 +74,13 @@ async def _run(events, consumers):
                 if ev[1] < len(jobs):
                     fut, func, args = jobs.pop(ev[1])
                     fut.set_result(func(*args))
+            elif ev[0] == 5:
+                # every class-loading job that is pending completes, one after the other, ev[1] scheduler yields apart
+                while jobs:
+                    fut, func, args = jobs.pop(0)
+                    if not fut.done():
+                        fut.set_result(func(*args))
+                    await PI.settle(ev[1])
             else:
                 g = ev[1]
 
@@ -102,7 +116,7 @@ class C10(Prop):
     prop_file = "Props/C10.v"
     rule = ("exhaustive: the first 1..4 frames from the controller address x 1..3 consumer tasks x every position of the completion of the "
             "(thread-pool) class loading among the arrivals x 0..2 user get('ecomax') calls at every position; run_in_executor is replaced by "
-            "harness-held futures so that the completion is an event.  Non-trivial = at least two frames arrive before the class loading "
+            "harness-held futures so that the completion is an event; `slow-subscriber`: a user callback subscribed to the device entry on the protocol awaits 1 / 3 / 8 loop iterations while the entry is published.  Non-trivial = at least two frames arrive before the class loading "
             "completes, or a get() is issued before it; distinct by (events, consumers).")
     assumptions = ["thread-pool timing is represented by the position of the completion event; the order in which CPython runs callbacks "
                    "made ready in one loop iteration is fixed by letting the loop settle after each event"]
@@ -149,6 +163,14 @@ class C10(Prop):
                     evs = [[0, i + 1] for i in range(before)] + [[2, 100], [4]] + [[0, before + j + 1] for j in range(after)] + \
                           [[1, 0], [0, before + after + 1], [2, 101]]
                     cases.append({"kind": "reconnect-while-loading", "events": evs, "consumers": consumers})
+        # a user subscriber of the device entry that awaits while the entry is being published; every pending class-loading job
+        # completes (there is one, unless consumers load the class concurrently)
+        for consumers in (1, 2, 3):
+            for k in (2, 3, 4):
+                for hops in (1, 3, 8):
+                    for apart in (0, 1, 4):
+                        evs = [[0, i + 1] for i in range(k)] + [[2, 100], [5, apart], [0, k + 1], [2, 101]]
+                        cases.append({"kind": "slow-subscriber", "events": evs, "consumers": consumers, "sub_hops": hops})
         self.exhaustive = True
         return cases
 
@@ -156,12 +178,18 @@ class C10(Prop):
         return {"exhaustive": True}
 
     def run_impl(self, c):
-        return vloop.run(_run, c["events"], c["consumers"])
+        return vloop.run(_run, c["events"], c["consumers"], c.get("sub_hops", 0))
 
     def model_many(self, cases):
         # (the passing of time is not an event of the model: nothing in it depends on how long the loading takes)
-        res = model.call_many("drun", [[True, [e[:2] for e in c["events"] if e[0] not in (3, 4)]] for c in cases])
-        return [[r[0], r[1], [list(p) for p in r[2]], sorted(list(p) for p in r[3]), r[4]] for r in res]
+        res = model.call_many("drun", [[True, [([1, 0] if e[0] == 5 else e[:2]) for e in c["events"] if e[0] not in (3, 4)]] for c in cases])
+        out = []
+        for c, r in zip(cases, res):
+            got = sorted(list(p) for p in r[3])
+            if c.get("sub_hops"):
+                got = sorted(got + [[200, 0]])          # the subscriber is handed the one object, once
+            out.append([r[0], r[1], [list(p) for p in r[2]], got, r[4]])
+        return out
 
     def obs(self, c, b):
         # with more frames than consumers some frames are still on the read queue while the class is loading:
